@@ -41,8 +41,8 @@ def explain(rec, exp):
 
 
 def run(R):
-    R.rule = ("cases = (word, IFS setting, construction): every word up to MaxLen segments over 13 segment kinds "
-              "(6 characters x unquoted/quoted + empty quotes) x 8 IFS settings x 2 constructions (literal / parameter "
+    R.rule = ("cases = (word, IFS setting, construction): every word up to MaxLen segments over 15 segment kinds "
+              "(7 characters x unquoted/quoted + empty quotes) x 8 IFS settings x 2 constructions (literal / parameter "
               "expansion); distinct_nontrivial = distinct words holding at least one unquoted delimiter candidate and one "
               "other segment")
     R.assumptions = ["the statement's reading that empty fields without quoted material are dropped (so fields are the maximal "
@@ -54,7 +54,7 @@ def run(R):
     if res.violated:
         raise vlib.MachineryError("Split.tla: operational and declarative descriptions disagree: %s" % res.violated)
     cases = [json.loads(p[1]) for p in res.prints if p and p[0] == "CASE"]
-    expect_n = sum(13 ** i for i in range(maxlen + 1))
+    expect_n = sum(15 ** i for i in range(maxlen + 1))
     if len(cases) != expect_n:
         raise vlib.MachineryError("SplitGen: %d cases, expected %d" % (len(cases), expect_n))
     if R.tier == "thorough":
